@@ -4,6 +4,9 @@
 //! *yield hook* before every operation, so an external scheduler can explore the
 //! interleavings of the atomic steps of concurrent operations. Without an installed hook
 //! the wrappers behave exactly like the std types.
+//!
+//! `verif::sync` offers mutexes that yield before every acquisition, so the same scheduler
+//! can also explore thread interleavings at the granularity of critical sections.
 
 use std::cell::RefCell;
 
@@ -134,4 +137,92 @@ pub mod atomic {
 
     instrumented!(AtomicU64, std::sync::atomic::AtomicU64, u64);
     instrumented!(AtomicUsize, std::sync::atomic::AtomicUsize, usize);
+}
+
+/// Instrumented mutexes: a yield point before every acquisition.
+///
+/// The critical sections themselves must not contain yield points (a scheduler that runs
+/// one thread at a time would hand the baton to a thread that then blocks on the held lock);
+/// this is checked: yielding while the calling thread holds one of these locks panics.
+pub mod sync {
+    use std::cell::Cell;
+    use std::ops::{Deref, DerefMut};
+
+    thread_local! {
+        static HELD: Cell<u32> = const { Cell::new(0) };
+    }
+
+    fn before_lock(op: &'static str) {
+        if HELD.with(|h| h.get()) > 0 {
+            panic!("verif: lock acquisition (a yield point) inside a critical section");
+        }
+        super::yield_point(op);
+    }
+
+    /// Guard of [`Mutex`] and [`PlMutex`].
+    pub struct Guard<'a, T: ?Sized>(std::sync::MutexGuard<'a, T>);
+
+    impl<'a, T: ?Sized> Guard<'a, T> {
+        fn new(g: std::sync::MutexGuard<'a, T>) -> Self {
+            HELD.with(|h| h.set(h.get() + 1));
+            Guard(g)
+        }
+    }
+
+    impl<T: ?Sized> Drop for Guard<'_, T> {
+        fn drop(&mut self) {
+            HELD.with(|h| h.set(h.get().saturating_sub(1)));
+        }
+    }
+
+    impl<T: ?Sized> Deref for Guard<'_, T> {
+        type Target = T;
+        fn deref(&self) -> &T {
+            &self.0
+        }
+    }
+
+    impl<T: ?Sized> DerefMut for Guard<'_, T> {
+        fn deref_mut(&mut self) -> &mut T {
+            &mut self.0
+        }
+    }
+
+    /// `std::sync::Mutex` look-alike (`lock()` returns a `Result`; poisoning is ignored).
+    #[derive(Debug, Default)]
+    pub struct Mutex<T: ?Sized>(std::sync::Mutex<T>);
+
+    impl<T> Mutex<T> {
+        /// See the std type.
+        pub const fn new(t: T) -> Self {
+            Self(std::sync::Mutex::new(t))
+        }
+    }
+
+    impl<T: ?Sized> Mutex<T> {
+        /// See the std type; yields to the scheduler first.
+        pub fn lock(&self) -> Result<Guard<'_, T>, std::convert::Infallible> {
+            before_lock("lock");
+            Ok(Guard::new(self.0.lock().unwrap_or_else(|e| e.into_inner())))
+        }
+    }
+
+    /// `parking_lot::Mutex` look-alike (`lock()` returns the guard).
+    #[derive(Debug, Default)]
+    pub struct PlMutex<T: ?Sized>(std::sync::Mutex<T>);
+
+    impl<T> PlMutex<T> {
+        /// See the parking_lot type.
+        pub const fn new(t: T) -> Self {
+            Self(std::sync::Mutex::new(t))
+        }
+    }
+
+    impl<T: ?Sized> PlMutex<T> {
+        /// See the parking_lot type; yields to the scheduler first.
+        pub fn lock(&self) -> Guard<'_, T> {
+            before_lock("lock");
+            Guard::new(self.0.lock().unwrap_or_else(|e| e.into_inner()))
+        }
+    }
 }
